@@ -39,6 +39,11 @@ def main():
     r.add_argument('path')
     s = sub.add_parser('selftest')
     s.add_argument('--fast', action='store_true')
+    dg = sub.add_parser('digests')
+    dg.add_argument('pid')
+    dg.add_argument('n', type=int)
+    dg.add_argument('--jobs', type=int, default=4)
+    dg.add_argument('--seed', type=int, default=77)
     sh = sub.add_parser('show')
     sh.add_argument('pid')
     sh.add_argument('index', type=int)
@@ -59,13 +64,17 @@ def main():
     if args.cmd == 'selftest':
         import selftest
         sys.exit(selftest.main(fast=args.fast))
+    if args.cmd == 'digests':
+        import selftest
+        print(json.dumps(selftest.digests(args.pid, args.n, args.jobs, args.seed)))
+        return
     if args.cmd == 'show':
         import engine
         import world as W
         seed = int(os.environ.get('VERIF_SEED', DEFAULT_SEEDS.get(args.pid, 1)))
         prof = check.get_profile(args.pid)
         scn = prof.generate(engine.rng_for(seed, args.pid, args.index), args.tier)
-        files, meta = W.render_world(scn['world'])
+        files, meta = W.render_world(scn['world'], scn.get('env', {}))
         print(json.dumps({'ops': scn['ops'], 'plan': scn['plan'], 'env': scn['env']}, indent=1))
         for k, v in files.items():
             if v:
